@@ -269,7 +269,7 @@ func init() {
 	register(&propertySpec{
 		ID:      "C10",
 		Explain: "Static gate / pairing rules for the rule lifecycle: every Location entry refuses on the disabled edge before touching state (GATE-E), dispatch appends a rule only behind RuleEnabled == true (DISP-ENABLED), re-adding or removing an id drops the cached parse (CACHE-INV), and RemRule removes the disabled flag (REM-FLAG). Does not decide the state machine over histories, reload survival or inherited disablement.",
-		Rules:   []ruleFn{ruleGateE, ruleDispEnabled, ruleCacheInv, ruleRemFlag, ruleDeleteWithProvenance, ruleIdxRem, ruleStoreBeforeMem("C10"), ruleGateFire, ruleIdxRollback("C10"), ruleAddExpiresStale, rulePropDwAny("C10"), ruleCacheGen("C10"), ruleStateFresh("C10"), ruleFlagNoLease},
+		Rules:   []ruleFn{ruleIdxEmptyAll("C10"), ruleGateE, ruleDispEnabled, ruleCacheInv, ruleRemFlag, ruleDeleteWithProvenance, ruleIdxRem, ruleStoreBeforeMem("C10"), ruleGateFire, ruleIdxRollback("C10"), ruleAddExpiresStale, rulePropDwAny("C10"), ruleCacheGen("C10"), ruleStateFresh("C10"), ruleFlagNoLease},
 	})
 }
 
